@@ -35,6 +35,8 @@ PROP = dict(
         workloads=[
             dict(name="control-matrix", go_test="TestC14", runner="C14",
                  env=dict(quick=dict(VERIF_ALLMASKS=0), thorough=dict(VERIF_ALLMASKS=1))),
+            dict(name="liquidation-auction-controls", go_test="TestC14X", runner="C14X",
+                 env=dict(quick=dict(VERIF_ALLMASKS=0, VERIF_AMOUNT_SAMPLE=2), thorough=dict(VERIF_ALLMASKS=1))),
         ],
         search_env=_search_env, search_rounds=1,   # the matrix is deterministic: one directed round (focused on the broken rows, or the full boundary matrix)
         rule="case = one message on its own store branch of the prepared state (one position of every kind): every method of the vault / locker / lend / liquidity / auctionsV2 msg servers, "
